@@ -60,10 +60,12 @@ Lemma table_verdicts_agree : forallb verdicts_agree lock_table = true.
 Proof. vm_compute. reflexivity. Qed.
 
 (* covered in the source as it stands with the repairs repo_patches/C11-2-fix (m.versionMu around
-   newVersion and merge) and C11-3-fix (d.updateMu around storeAndUpdate and DeleteData) *)
+   newVersion and merge), C11-3-fix (d.updateMu around storeAndUpdate and DeleteData) and
+   C11-4-fix (d.mutateMu around StoreElements, DeleteElement, MoveElement) *)
 Definition expected_covered : list string :=
   ["keyvalue.PutData"; "keyvalue.DeleteData"; "labelmap.CleaveLabel"; "labelmap.ChangeLabelIndex";
-   "neuronjson.storeAndUpdate"; "datastore.newVersion"].
+   "neuronjson.storeAndUpdate"; "datastore.newVersion";
+   "annotation.StoreElements"; "annotation.DeleteElement"; "annotation.MoveElement"].
 
 Definition named_site_covered (name : string) : bool :=
   match find_site name with Some s => site_covered s | None => false end.
